@@ -18,16 +18,21 @@
 (***************************************************************************)
 EXTENDS Raft
 
-CONSTANTS E, L, D
+CONSTANTS E, L, D,
+  TP,       \* least time between two expiries of a node's election ticker (the code sleeps a random
+            \* time in [E, 2E) and is then released by the scheduler): E in model checking, 2E when
+            \* behaviours are generated for replay (the real ticker has then certainly expired)
+  InitAge   \* age of every node's last contact initially: 0 = just started, E = idle for long
 
-VARIABLES age, lease, mage
-tvars == <<vars, age, lease, mage>>
+VARIABLES age, lease, mage, tage
+tvars == <<vars, age, lease, mage, tage>>
 
 Sat(x, m) == IF x >= m THEN m ELSE x + 1
 
 TInit ==
   /\ Init
-  /\ age = [n \in Node |-> 0]          \* start() sets lastContact = now
+  /\ age = [n \in Node |-> InitAge]    \* start() sets lastContact = now
+  /\ tage = [n \in Node |-> IF InitAge = 0 THEN 0 ELSE 2 * E]
   /\ lease = [n \in Node |-> 0]
   /\ mage = [m \in {} |-> 0]
 
@@ -40,16 +45,21 @@ LeaseAfter(n, renewed) ==
   ELSE IF ns'[n].role # ns[n].role THEN 0
   ELSE lease[n]
 
+\* time passes; a message that has been in flight for D is lost with the tick (no delivery is
+\* later than D; losing a message earlier than that is the same behaviour as never handling it,
+\* so there is no separate loss action in the timed model)
 Tick ==
-  /\ \A m \in net : mage[m] < D
   /\ age' = [n \in Node |-> Sat(age[n], E)]
   /\ lease' = [n \in Node |-> IF lease[n] > 0 THEN lease[n] - 1 ELSE 0]
-  /\ mage' = [m \in net |-> mage[m] + 1]
-  /\ UNCHANGED vars
+  /\ net' = {m \in net : mage[m] < D}
+  /\ tage' = [n \in Node |-> Sat(tage[n], 2 * E)]
+  /\ mage' = [m \in net' |-> mage[m] + 1]
+  /\ UNCHANGED <<ns, budget, elected, comm, voted, acked, viol>>
 
 \* election(): only after an election timeout without contact
 TTimerFire(n) ==
-  /\ age[n] >= E
+  /\ age[n] >= E /\ tage[n] >= TP
+  /\ tage' = [tage EXCEPT ![n] = 0]
   /\ TimerFireA(n)
   /\ MageNext
   /\ age' = age
@@ -57,6 +67,7 @@ TTimerFire(n) ==
 
 \* RequestVote: ignored iff valid lease or recent contact; a granted real vote refreshes the contact
 TRVHandle(m) ==
+  /\ UNCHANGED tage
   /\ m \in net /\ m.kind = "rvq" /\ Up(m.to)
   /\ LET sticky == lease[m.to] > 0 \/ age[m.to] < E
          h == HandleRV(ns[m.to], m, sticky) IN
@@ -69,18 +80,21 @@ TRVHandle(m) ==
   /\ MageNext
 
 TRVReply(m) ==
+  /\ UNCHANGED tage
   /\ RVReply(m)
   /\ MageNext
   /\ age' = age
   /\ lease' = [lease EXCEPT ![m.to] = LeaseAfter(m.to, FALSE)]
 
 TStartRound(n) ==
+  /\ UNCHANGED tage
   /\ StartRound(n)
   /\ MageNext
   /\ UNCHANGED <<age, lease>>
 
 \* AppendEntries with a current term refreshes the contact
 TAEHandle(m) ==
+  /\ UNCHANGED tage
   /\ AEHandle(m)
   /\ MageNext
   /\ age' = [age EXCEPT ![m.to] = IF m.term >= ns[m.to].term THEN 0 ELSE age[m.to]]
@@ -96,17 +110,20 @@ QuorumNow(m) ==
   counts /\ Quorum(s, c1)
 
 TAEReply(m) ==
+  /\ UNCHANGED tage
   /\ AEReply(m)
   /\ MageNext
   /\ age' = age
   /\ lease' = [lease EXCEPT ![m.to] = LeaseAfter(m.to, QuorumNow(m) /\ ns'[m.to].role = "L")]
 
 TLose(m) ==
+  /\ UNCHANGED tage
   /\ Lose(m)
   /\ MageNext
   /\ UNCHANGED <<age, lease>>
 
 TClientSubmit(n, v) ==
+  /\ UNCHANGED tage
   /\ ClientSubmit(n, v)
   /\ UNCHANGED <<age, lease, mage>>
 
@@ -119,13 +136,13 @@ LeaseRead(n) ==
   /\ lease[n] > 0 \/ "LeaseNotChecked" \in W
   /\ s.commit < acked
   /\ viol' = viol \cup {"StaleLeaseRead"}
-  /\ UNCHANGED <<ns, net, budget, elected, comm, voted, acked, age, lease, mage>>
+  /\ UNCHANGED <<ns, net, budget, elected, comm, voted, acked, age, lease, mage, tage>>
 
 TNext ==
   \/ Tick
   \/ \E n \in Node : TTimerFire(n) \/ TStartRound(n) \/ LeaseRead(n)
   \/ \E n \in Node, v \in Value : TClientSubmit(n, v)
-  \/ \E m \in net : TRVHandle(m) \/ TRVReply(m) \/ TAEHandle(m) \/ TAEReply(m) \/ TLose(m)
+  \/ \E m \in net : TRVHandle(m) \/ TRVReply(m) \/ TAEHandle(m) \/ TAEReply(m)
 
 TSpec == TInit /\ [][TNext]_tvars
 
